@@ -532,24 +532,36 @@ impl metrics::Recorder for CountingRecorder {
 }
 
 // ------------------------------------------------------------------------------------------
-// quiet tracing subscriber ("a subscriber is installed", but it prints nothing)
+// quiet tracing subscriber ("a subscriber is installed", but it prints nothing). It is a *slow* subscriber for
+// error events: handling one contains a scheduling point, so the thread that reports an error (an overflow, a
+// rejected entry, a failed flush) can be descheduled in the middle of the report while others carry on.
 // ------------------------------------------------------------------------------------------
 
 pub struct QuietSubscriber;
 
 impl tracing::Subscriber for QuietSubscriber {
-    fn enabled(&self, _metadata: &tracing::Metadata<'_>) -> bool {
-        false
+    fn enabled(&self, metadata: &tracing::Metadata<'_>) -> bool {
+        metadata.is_event() && *metadata.level() == tracing::Level::ERROR
     }
     fn new_span(&self, _span: &tracing::span::Attributes<'_>) -> tracing::span::Id {
         tracing::span::Id::from_u64(1)
     }
     fn record(&self, _span: &tracing::span::Id, _values: &tracing::span::Record<'_>) {}
     fn record_follows_from(&self, _span: &tracing::span::Id, _follows: &tracing::span::Id) {}
-    fn event(&self, _event: &tracing::Event<'_>) {}
+    fn event(&self, _event: &tracing::Event<'_>) {
+        if detsim::in_sim() && SLOW_SUBSCRIBER_ON.load(Ordering::SeqCst) {
+            SLOW_SUBSCRIBER_EVENTS.fetch_add(1, Ordering::Relaxed);
+            detsim::yield_point();
+        }
+    }
     fn enter(&self, _span: &tracing::span::Id) {}
     fn exit(&self, _span: &tracing::span::Id) {}
 }
+
+/// error events handled (each with a scheduling point inside) since the process started
+pub static SLOW_SUBSCRIBER_EVENTS: AtomicU64 = AtomicU64::new(0);
+/// set by the scenarios in which the subscriber may deschedule the reporting thread
+pub static SLOW_SUBSCRIBER_ON: std::sync::atomic::AtomicBool = std::sync::atomic::AtomicBool::new(false);
 
 pub fn install_quiet_subscriber() {
     let _ = tracing::subscriber::set_global_default(QuietSubscriber);
